@@ -116,4 +116,4 @@ def check(case, ctx):
 
 
 def subs(tier):
-    return [Generated("histories", check, strategy=_cases(), quick=560, thorough=50000)]
+    return [Generated("histories", check, strategy=_cases(), quick=560, thorough=50000, budget_s_quick=90.0)]
